@@ -84,7 +84,38 @@ pub fn nested_budget<S: Src>(s: &mut S) {
     s.reached("c03.nested_budget");
 }
 
+/// `Vm::run_function` (what a native calls to re-enter the interpreter) entered while the
+/// enclosing run has R instructions left (configured budget 4): the callback loops forever and
+/// may execute at most R instructions - the nested run must draw on the run's remaining budget
+pub fn run_function_budget<S: Src>(s: &mut S) {
+    let mut rig = Rig::new(8, 4, 1 << 16);
+    let h = Handle::from_u32(5);
+    let mut a = Asm::new();
+    a.op(op::GOTO).i32(0);
+    a.exit();
+    rig.prog.bytecode = a.bc;
+    rig.prog.labels.0.insert(h, Label::new(0)).unwrap();
+    let f = rig.vm.init_function(h, 0).unwrap().into_inner();
+    let prog: *const CaoCompiledProgram = &rig.prog;
+    rig.vm.verif_set_program(prog);
+    rig.vm.max_instr = 4;
+    let r = 1 + s.below(3) as u64;
+    rig.vm.remaining_iters = r;
+    reset_dispatch_count();
+    let res = rig.vm.run_function(Value::Object(f));
+    match &res {
+        Ok(_) => assert!(false, "C03.nested.endless_callback_times_out"),
+        Err(e) => assert!(kind_of(e) == E_TIMEOUT, "C03.nested.endless_callback_times_out"),
+    }
+    assert!(dispatch_count() <= r, "C03.nested.callback_instructions_count_against_the_run_budget");
+    std::mem::forget(res);
+    std::mem::forget(rig);
+    s.reached("c03.run_function_budget");
+}
+
 crate::harnesses! {
+    #[kani::stub(alloc::fmt::format, crate::stub_format)]
+    c03_run_function_budget / 18 => run_function_budget;
     #[kani::stub(alloc::fmt::format, crate::stub_format)]
     c03_endless_loop / 18 => endless_loop;
     #[kani::stub(alloc::fmt::format, crate::stub_format)]
